@@ -20,9 +20,10 @@ def mk_printer(b, name="P"):
 
 
 def mk_motion_state(b, **o):
-    opts = dict(enter="any", exit="any", position="some", lastRetraction="any", lastPosition="any",
-                pending=b.ordmap("pending"))
+    opts = dict(enter="any", exit="any", position="some", lastRetraction="any", lastPosition="any")
     opts.update(o)
+    if "pending" not in opts:
+        opts["pending"] = b.ordmap("pending")
     return mk_state(b, **opts)
 
 
